@@ -45,7 +45,7 @@ use petgraph::{
     algo::toposort,
     stable_graph::{NodeIndex, StableDiGraph},
 };
-use std::collections::HashMap;
+use std::collections::{HashMap, HashSet};
 
 pub fn apply(lib: Library) -> Result<Library, Vec<Diagnostic>> {
     // Walk to build a graph of types, POUs and their relationships
@@ -55,6 +55,19 @@ pub fn apply(lib: Library) -> Result<Library, Vec<Diagnostic>> {
         .declarations
         .sorted_ids()
         .map_err(|err| vec![err])?;
+
+    // Declarations are stored by name, so each name can be declared only once
+    let mut declared_names: HashSet<Id> = HashSet::new();
+    let mut declare = |name: &Id| -> Result<(), Vec<Diagnostic>> {
+        if declared_names.insert(name.clone()) {
+            return Ok(());
+        }
+        Err(vec![Diagnostic::problem(
+            Problem::DeclarationNameDuplicated,
+            Label::span(name.span.clone(), "Duplicate declaration"),
+        )
+        .with_context_id("name", name)])
+    };
 
     // Split based on the type so that we put all of the data type declarations
     // at the beginning.
@@ -66,48 +79,56 @@ pub fn apply(lib: Library) -> Result<Library, Vec<Diagnostic>> {
             LibraryElementKind::DataTypeDeclaration(decl) => {
                 match decl {
                     DataTypeDeclarationKind::Enumeration(decl) => {
+                        declare(&decl.type_name.name)?;
                         types_by_name.insert(
                             decl.type_name.name.clone(),
                             DataTypeDeclarationKind::Enumeration(decl),
                         );
                     }
                     DataTypeDeclarationKind::Subrange(decl) => {
+                        declare(&decl.type_name.name)?;
                         types_by_name.insert(
                             decl.type_name.name.clone(),
                             DataTypeDeclarationKind::Subrange(decl),
                         );
                     }
                     DataTypeDeclarationKind::Simple(decl) => {
+                        declare(&decl.type_name.name)?;
                         // Can refer to other declarations, but does not have any declarations itself
                         postfix_types.push(LibraryElementKind::DataTypeDeclaration(
                             DataTypeDeclarationKind::Simple(decl),
                         ));
                     }
                     DataTypeDeclarationKind::Array(decl) => {
+                        declare(&decl.type_name.name)?;
                         types_by_name.insert(
                             decl.type_name.name.clone(),
                             DataTypeDeclarationKind::Array(decl),
                         );
                     }
                     DataTypeDeclarationKind::Structure(decl) => {
+                        declare(&decl.type_name.name)?;
                         types_by_name.insert(
                             decl.type_name.name.clone(),
                             DataTypeDeclarationKind::Structure(decl),
                         );
                     }
                     DataTypeDeclarationKind::StructureInitialization(decl) => {
+                        declare(&decl.type_name.name)?;
                         types_by_name.insert(
                             decl.type_name.name.clone(),
                             DataTypeDeclarationKind::StructureInitialization(decl),
                         );
                     }
                     DataTypeDeclarationKind::String(decl) => {
+                        declare(&decl.type_name.name)?;
                         // Can refer to other declarations, but does not have any declarations itself
                         postfix_types.push(LibraryElementKind::DataTypeDeclaration(
                             DataTypeDeclarationKind::String(decl),
                         ));
                     }
                     DataTypeDeclarationKind::LateBound(decl) => {
+                        declare(&decl.data_type_name.name)?;
                         types_by_name.insert(
                             decl.data_type_name.name.clone(),
                             DataTypeDeclarationKind::LateBound(decl),
@@ -116,24 +137,28 @@ pub fn apply(lib: Library) -> Result<Library, Vec<Diagnostic>> {
                 }
             }
             LibraryElementKind::FunctionDeclaration(decl) => {
+                declare(&decl.name)?;
                 elems_by_name.insert(
                     decl.name.clone(),
                     LibraryElementKind::FunctionDeclaration(decl),
                 );
             }
             LibraryElementKind::FunctionBlockDeclaration(decl) => {
+                declare(&decl.name)?;
                 elems_by_name.insert(
                     decl.name.clone(),
                     LibraryElementKind::FunctionBlockDeclaration(decl),
                 );
             }
             LibraryElementKind::ProgramDeclaration(decl) => {
+                declare(&decl.name)?;
                 elems_by_name.insert(
                     decl.name.clone(),
                     LibraryElementKind::ProgramDeclaration(decl),
                 );
             }
             LibraryElementKind::ConfigurationDeclaration(decl) => {
+                declare(&decl.name)?;
                 elems_by_name.insert(
                     decl.name.clone(),
                     LibraryElementKind::ConfigurationDeclaration(decl),
